@@ -12,6 +12,9 @@ ops:
 * `batchfeesmax <maxElements> <token:baseFee,…|-> <token:fee:amount;…|->` — the unbatched pool in STORE ITERATION order;
   answers `GetAllBatchFees(ctx, maxElements, minBatchFees)` computed by the machine model (`createBatchFees` with the
   per-token limit and the base-fee filter, then the scheduled range + sort);
+* `tallyop <y:a:n:v:t> | <y:a:n:v:t;…|->` — gov `Tally`: the vector accumulated while walking the votes, and one contribution
+  vector per bonded validator that voted (raw 18-decimal integers); answers the four tallied options truncated to
+  integers, computed by the machine model's `tally` op (sum in schedule order);
 * `f64add <a> <b>` — answers `round53 (round53 a + round53 b)`: the integer value of `float64(a) + float64(b)` (validation of
   the binary64 model `round53` / `fadd` against the machine's float unit);
 * `updateoracles <addr:power:online:delegate,…|-> | <old proposal a,b,…|-> | <new a,b,…|->` — `UpdateProposalOracles` on
@@ -58,6 +61,19 @@ def showList (l : List String) : String := if l.isEmpty then "-" else ",".interc
 def step (st : Unit) (line : String) : Unit × String :=
   match words line with
   | "reset" :: _ => (st, "ok")
+  | ["tallyop", base, "|", vs] =>
+    let parseVec (w : String) : Option Vec5 :=
+      match (w.splitOn ":").mapM String.toNat? with
+      | some [y, a, n, v, t] => some (y, a, n, v, t)
+      | _ => none
+    match parseVec base, (if vs == "-" then some [] else (vs.splitOn ";").mapM parseVec) with
+    | some b, some l =>
+      match (exec Sched.id (emptySt [] []) (.tally ((b :: l).map fun v => ("", v)))).2 with
+      | .tally r =>
+        let p := 10 ^ 18
+        (st, s!"{r.1 / p}:{r.2.1 / p}:{r.2.2.1 / p}:{r.2.2.2.1 / p}")
+      | _ => (st, "bad-op")
+    | _, _ => (st, "bad-op")
   | ["f64add", a, b] =>
     match a.toNat?, b.toNat? with
     | some a, some b => (st, toString (fadd (round53 a) (round53 b)))
